@@ -27,11 +27,13 @@ def md5_gate_rule(ctx, rule):
         md5 = False
         for (a, t) in fs:
             if a[0] == "true" and t:
-                srcs = sl.sources(a[1])
-                clos = [z[len("closure:"):] for z in srcs if z.startswith("closure:")]
-                direct = any(z == "call:" + BW + "::check_md5" for z in srcs)
+                # the condition itself (single-definition locals expanded, no flow-insensitive union) must be computed
+                # from BlockWriter::check_md5 applied to self.content_md5
+                ex = sl.expand(a[1])
+                clos = [z[1] for z in walk(ex) if z[0] == "closure"]
+                direct = any(z[0] == "call" and z[1] == BW + "::check_md5" for z in walk(ex))
                 viaclos = any(any(True for _ in call_sites(prog.funcs[c], lambda p, cc: p == BW + "::check_md5")) for c in clos if c in prog.funcs)
-                if (direct or viaclos) and any(z.startswith("var:self.content_md5") for z in srcs):
+                if (direct or viaclos) and "self.content_md5" in show(ex, 2000):
                     md5 = True
         key = "write_blocks -> complete"
         if done and md5:
@@ -45,10 +47,12 @@ def md5_gate_rule(ctx, rule):
     for s in errs:
         fs = flow.facts_at(s.bb)
         for (a, t) in fs:
-            if a[0] == "true" and not t and show(a[1]) == "md5_valid":
-                okerr = True
-            elif a[0] == "true" and not t and any("check_md5" in z for z in sl.sources(a[1])):
-                okerr = True
+            if a[0] == "true" and not t:
+                ex = sl.expand(a[1])
+                clos = [z[1] for z in walk(ex) if z[0] == "closure"]
+                if any(z[0] == "call" and z[1] == BW + "::check_md5" for z in walk(ex)) or \
+                        any(any(True for _ in call_sites(prog.funcs[c], lambda p, cc: p == BW + "::check_md5")) for c in clos if c in prog.funcs):
+                    okerr = True
     if okerr:
         rule.ok("write_blocks md5 mismatch -> error", "", errs[0].loc)
     else:
